@@ -99,7 +99,14 @@ impl CharScorer {
         let no_tag_ngrams = tag_ngram_model.iter().all(|m| m.0.is_empty());
         #[cfg(not(feature = "tag-prediction"))]
         let no_tag_ngrams = true;
-        if ngram_model.0.is_empty() && dict_model.0.is_empty() && no_tag_ngrams || window_size == 0 {
+        // A window size of 0 switches the character n-grams off; dictionary words and tag n-grams do not
+        // depend on the window.
+        let ngram_model = if window_size == 0 {
+            NgramModel(vec![])
+        } else {
+            ngram_model
+        };
+        if ngram_model.0.is_empty() && dict_model.0.is_empty() && no_tag_ngrams {
             return Ok(None);
         }
 
